@@ -8,14 +8,16 @@
  *   valid <idlen> <hex>                     -> =<gc0ValidIdInBuf text>
  *   global <idlen> <idhash 0/1> <hex>       -> =<gc0MultVarId("G",0,name)> =<gc0MultVarId("pG",0,name)>
  *   local <idlen> <kindhex> <index> <hex>   -> =<gc0MultVarId(kind,index,name)> =<gc0VarId(kind,index)>
- *   split <smax> <nglo> <basehex> <body sizes...>
- *        -> <n> [CF indices of code-list element 0] ... ; <file>=<CF indices defined in it> ... (sorted)
+ *   split <smax> <nglo> <basehex> <body sizes...>      (old C;  `splitS ...` = standard C)
+ *        -> <n> [CF indices/INIT indices defined by code-list element 0] ... ;
+ *           <file>=<CF indices/INIT indices defined in the written file> ... (sorted by name)
  */
 #include "genc.c"
 #include "sexpr.h"
 #include "emit.h"
 #include "fname.h"
 #include "drv_common.h"
+extern int ccDoStandardCFlag;	/* ccomp.c */
 
 static char *unhex(const char *h)
 {
@@ -85,10 +87,10 @@ static Foam make_unit(int nglo, int nb, int *bodies)
 	return foam;
 }
 
-static void list_funs(CCode cc, Buffer out)
+static void list_funs(CCode cc, Buffer out, Buffer inits)
 {
 	/* walk a CCode tree; for every function definition (CCO_FDef) whose name is CF<n>_...
-	 * append n */
+	 * append n to `out`, for every INIT__<k>_... append k to `inits` */
 	int i;
 	if (!cc) return;
 	if (ccoInfo(ccoTag(cc)).kind == CCOK_Token) return;
@@ -99,10 +101,12 @@ static void list_funs(CCode cc, Buffer out)
 			String s = symString(d->ccoToken.symbol);
 			if (s[0] == 'C' && s[1] == 'F' && isdigit(s[2]))
 				bufPrintf(out, "%s%d", bufPosition(out) ? "," : "", atoi(s + 2));
+			else if (!strncmp(s, "INIT__", 6) && isdigit(s[6]))
+				bufPrintf(inits, "%s%d", bufPosition(inits) ? "," : "", atoi(s + 6));
 		}
 		return;
 	}
-	for (i = 0; i < ccoArgc(cc); i++) list_funs(ccoArgv(cc)[i], out);
+	for (i = 0; i < ccoArgc(cc); i++) list_funs(ccoArgv(cc)[i], out, inits);
 }
 
 static int cmpstr(const void *a, const void *b) { return strcmp(*(char **) a, *(char **) b); }
@@ -111,14 +115,17 @@ static int cmpstr(const void *a, const void *b) { return strcmp(*(char **) a, *(
 #include <unistd.h>
 
 /* which CF<n> functions are defined in a written file: lines that start with CF<digits>_ */
-static void file_funs(const char *path, Buffer out)
+static void file_funs(const char *path, Buffer out, Buffer inits)
 {
 	FILE *f = fopen(path, "r");
 	char *ln = NULL; size_t cap = 0;
 	if (!f) { bufPrintf(out, "unreadable"); return; }
-	while (getline(&ln, &cap, f) >= 0)
+	while (getline(&ln, &cap, f) >= 0) {
 		if (ln[0] == 'C' && ln[1] == 'F' && isdigit(ln[2]))
 			bufPrintf(out, "%s%d", bufPosition(out) ? "," : "", atoi(ln + 2));
+		else if (!strncmp(ln, "INIT__", 6) && isdigit(ln[6]))
+			bufPrintf(inits, "%s%d", bufPosition(inits) ? "," : "", atoi(ln + 6));
+	}
 	free(ln);
 	fclose(f);
 }
@@ -126,7 +133,7 @@ static void file_funs(const char *path, Buffer out)
 static void run_split(void)
 {
 	int smax, nglo, nb, i, nf = 0, *bodies;
-	char *base, dir[256], path[1024], *names[4096];
+	char *base, dir[256], path[1024], *names[8192];
 	const char *tmp = getenv("VERIF_TMPDIR");
 	Foam foam;
 	CCodeList l, l0;
@@ -134,8 +141,10 @@ static void run_split(void)
 	FileName srcfn;
 	DIR *d;
 	struct dirent *e;
-	Buffer out = bufNew();
+	Buffer out = bufNew(), inits = bufNew();
 	if (drv_ntok < 5) { printf("bad-op"); return; }
+	/* `split` prints old C, `splitS` standard C (emitTheC asks ccDoStandardC()) */
+	ccDoStandardCFlag = !strcmp(drv_tok[0], "splitS");
 	smax = atoi(drv_tok[1]);
 	nglo = atoi(drv_tok[2]);
 	base = unhex(drv_tok[3]);
@@ -149,10 +158,10 @@ static void run_split(void)
 	l0 = l = genC(foam, base);
 	printf("%d", (int) listLength(CCode)(l));
 	for (; l; l = cdr(l)) {
-		bufStart(out);
-		list_funs(car(l), out);
-		bufAdd1(out, char0);
-		printf(" [%s]", bufChars(out));
+		bufStart(out); bufStart(inits);
+		list_funs(car(l), out, inits);
+		bufAdd1(out, char0); bufAdd1(inits, char0);
+		printf(" [%s/%s]", bufChars(out), bufChars(inits));
 	}
 	/* now let the real emitTheC write the files into a fresh directory */
 	snprintf(dir, sizeof dir, "%s/mangle-drv-XXXXXX", tmp && *tmp ? tmp : "/var/tmp");
@@ -164,24 +173,24 @@ static void run_split(void)
 	d = opendir(dir);
 	while (d && (e = readdir(d)) != NULL) {
 		if (e->d_name[0] == '.') continue;
-		if (nf < 4096) names[nf++] = strdup(e->d_name);
+		if (nf < 8192) names[nf++] = strdup(e->d_name);
 	}
 	if (d) closedir(d);
 	qsort(names, nf, sizeof(char *), cmpstr);
 	printf(" ;");
 	for (i = 0; i < nf; i++) {
 		snprintf(path, sizeof path, "%s/%s", dir, names[i]);
-		bufStart(out);
-		file_funs(path, out);
-		bufAdd1(out, char0);
-		printf(" %s=%s", names[i], bufChars(out));
+		bufStart(out); bufStart(inits);
+		file_funs(path, out, inits);
+		bufAdd1(out, char0); bufAdd1(inits, char0);
+		printf(" %s=%s/%s", names[i], bufChars(out), bufChars(inits));
 		unlink(path);
 		free(names[i]);
 	}
 	rmdir(dir);
 	listFreeDeeply(CCode)(l0, ccoFree);
 	free(bodies); free(base);
-	bufFree(out);
+	bufFree(out); bufFree(inits);
 }
 
 int main(int argc, char **argv)
@@ -234,7 +243,7 @@ int main(int argc, char **argv)
 			printf(" =%s", ccoIdText(gc0VarId(k, ix)));
 			free(k); free(s);
 		}
-		else if (!strcmp(drv_tok[0], "split")) run_split();
+		else if (!strcmp(drv_tok[0], "split") || !strcmp(drv_tok[0], "splitS")) run_split();
 		else printf("bad-op");
 		DRV_EMIT();
 	}
